@@ -5,6 +5,7 @@
   normal, respect the kind rules, contain no two neighbouring text nodes, and are themselves
   sound trees; the chain of open frames is `element … element document`.
 -/
+import XotModel.Lemmas.ParseQName
 import XotModel.Model.Parse
 import XotModel.Model.Valid
 
@@ -473,9 +474,10 @@ theorem prefix_ok {b b' : Builder} (p : Str) (u : StrSpan) (sp : Span) (h : Buil
         exact ⟨d, hd, by simp [hda, hac]⟩
 
 theorem step_ok {b b' : Builder} (t : Token) (h : BuilderOk b) (hr : b.step t = .ok b') : BuilderOk b' := by
+  replace hr := Builder.step_ok_core hr
   cases t with
   | «attribute» pfx loc value sp =>
-    simp only [Builder.step] at hr
+    simp only [Builder.stepCore] at hr
     split at hr
     · exact prefix_ok _ _ _ h hr
     · split at hr
@@ -495,21 +497,21 @@ theorem step_ok {b b' : Builder} (t : Token) (h : BuilderOk b) (hr : b.step t = 
               subst he
               exact h.2.2.2 eb heb
   | text t =>
-    simp only [Builder.step, Builder.text] at hr
+    simp only [Builder.stepCore, Builder.text] at hr
     split at hr
     · cases hr
     · simp only [Step.ok.injEq] at hr; subst hr
       refine builderOk_congr (addText_ok _ h) rfl rfl ?_
       unfold Builder.addText; split <;> rfl
   | cdata t sp =>
-    simp only [Builder.step, Builder.cdata] at hr
+    simp only [Builder.stepCore, Builder.cdata] at hr
     split at hr
     · simp only [Step.ok.injEq] at hr; subst hr; exact h
     · simp only [Step.ok.injEq] at hr; subst hr
       refine builderOk_congr (addText_ok _ h) rfl rfl ?_
       unfold Builder.addText; split <;> rfl
   | elementStart pfx loc sp =>
-    simp only [Builder.step, Builder.element, Step.ok.injEq] at hr
+    simp only [Builder.stepCore, Builder.element, Step.ok.injEq] at hr
     subst hr
     refine builderOk_setEb h rfl rfl ?_
     intro e he
@@ -521,17 +523,17 @@ theorem step_ok {b b' : Builder} (t : Token) (h : BuilderOk b) (hr : b.step t = 
     | «open» => exact openElement_ok h hr
     | close pfx loc => exact closeElement_ok pfx loc sp h hr
     | empty =>
-      simp only [Builder.step] at hr
+      simp only [Builder.stepCore] at hr
       cases hb : b.openElement with
       | ok b1 => rw [hb] at hr; exact closeImmediate_ok sp (openElement_ok h hb) hr
       | err e env => rw [hb] at hr; cases hr
       | panic => rw [hb] at hr; cases hr
   | comment t sp =>
-    simp only [Builder.step, Builder.comment, Step.ok.injEq] at hr
+    simp only [Builder.stepCore, Builder.comment, Step.ok.injEq] at hr
     subst hr
     exact builderOk_congr (addLeaf_ok (.comment (normalizeLineEnds t.text)) h rfl rfl rfl) rfl rfl rfl
   | pi target content sp =>
-    simp only [Builder.step] at hr
+    simp only [Builder.stepCore] at hr
     split at hr
     · cases hr
     simp only [Builder.processingInstruction, Step.ok.injEq] at hr
@@ -540,14 +542,14 @@ theorem step_ok {b b' : Builder} (t : Token) (h : BuilderOk b) (hr : b.step t = 
       (.pi (b.env.internName target.text Env.noNamespace).2 (content.map fun c => normalizeLineEnds c.text))
       (builderOk_congr h rfl rfl rfl) rfl rfl rfl) rfl rfl rfl
   | declaration v e s sp =>
-    simp only [Builder.step] at hr
+    simp only [Builder.stepCore] at hr
     split at hr
     · cases hr
     · simp only [Step.ok.injEq] at hr; subst hr; exact h
-  | dtdStart sp => simp [Builder.step] at hr
-  | dtdEnd sp => simp [Builder.step] at hr
-  | emptyDtd sp => simp [Builder.step] at hr
-  | entityDecl sp => simp [Builder.step] at hr
+  | dtdStart sp => simp [Builder.stepCore] at hr
+  | dtdEnd sp => simp [Builder.stepCore] at hr
+  | emptyDtd sp => simp [Builder.stepCore] at hr
+  | entityDecl sp => simp [Builder.stepCore] at hr
 
 theorem run_ok (ts : List Token) (lexErr : Option Nat) :
     ∀ {b b' : Builder}, BuilderOk b → b.run ts lexErr = .ok b' → BuilderOk b' := by
